@@ -13,6 +13,8 @@
 use super::*;
 use crate::llir::AcceleratingByteMask;
 use crate::verif_common::noop_emitter;
+use crate::pos::Sp;
+use crate::diagnostic::Diagnostic;
 
 const MAXLEN: usize = 6;
 
@@ -246,6 +248,54 @@ cstring_harness!(c15_cstring_roundtrip_n4_bs4, 4, 4);
 cstring_harness!(c15_cstring_roundtrip_n5_bs4, 5, 4);
 //@ C15 c15_cstring_roundtrip_n3_bs1 quick default,bounded BOUNDED text length 3, block 1 (ECL sub names), same round trip
 cstring_harness!(c15_cstring_roundtrip_n3_bs1, 3, 1);
+
+// ---------------------------------------------------------------------------------------
+// Fixed-size metadata strings (STD stage/BGM names: 128 bytes, mission.msg lines: 64 bytes):
+// "A string ... that does not fit is rejected with an error."  The Shift-JIS transcoder is an external
+// crate; here it is replaced by a stub that returns an ARBITRARY byte string (any bytes, any length
+// <= 6), so the obligation holds for whatever the transcoder produces.
+
+static mut STUB_ENCODED: [u8; MAXLEN] = [0; MAXLEN];
+static mut STUB_ENCODED_LEN: usize = 0;
+
+pub fn stub_encode<S: AsRef<str> + ?Sized>(_str: &Sp<S>, _enc: Encoding) -> Result<Encoded, Diagnostic> {
+    let mut v = Vec::with_capacity(MAXLEN + 10);
+    let mut i = 0;
+    unsafe {
+        while i < STUB_ENCODED_LEN { v.push(STUB_ENCODED[i]); i += 1; }
+    }
+    Ok(Encoded(v))
+}
+
+//@ C15 c15_encode_fixed_size quick default,bounded BOUNDED encoded length <= 6, buffer 1..=8 (transcoder stubbed by arbitrary bytes): encode_fixed_size succeeds exactly when the ENCODED BYTES plus a terminating NUL fit the buffer; on success the buffer has the requested size, starts with the encoded bytes and is NUL-filled after them; otherwise an error is returned and nothing is truncated
+#[kani::proof]
+#[kani::unwind(10)]
+#[kani::stub(alloc::fmt::format, crate::verif_common::stub_fmt_format)]
+#[kani::stub(crate::io::Encoded::encode, stub_encode)]
+fn c15_encode_fixed_size() {
+    let bytes: [u8; MAXLEN] = kani::any();
+    let n: usize = kani::any();
+    kani::assume(n <= MAXLEN);
+    unsafe { STUB_ENCODED = bytes; STUB_ENCODED_LEN = n; }
+    let buf: usize = kani::any();
+    kani::assume(buf >= 1 && buf <= 8);
+    let text = sp!("text");    // its content is irrelevant: the transcoder is the stub above
+    match Encoded::encode_fixed_size(&text, DEFAULT_ENCODING, buf) {
+        Ok(e) => {
+            assert!(n < buf, "accepted a string that does not fit with its terminator");
+            assert!(e.0.len() == buf, "buffer does not have the requested size");
+            let mut i = 0;
+            while i < buf {
+                if i < n { assert!(e.0[i] == bytes[i], "encoded bytes were changed"); } else { assert!(e.0[i] == 0, "padding is not NUL"); }
+                i += 1;
+            }
+        },
+        Err(d) => {
+            assert!(n >= buf, "rejected a string that fits");
+            core::mem::forget(d);
+        },
+    }
+}
 
 #[cfg(kani)]
 #[path = "/verif/.cache/playback/io.rs"]
